@@ -24,7 +24,35 @@ type c04Case struct {
 	SepN   int // 0: no separator function; k>0: separator drawn uniformly from k symbols by the function
 }
 
-func c04Spec(c c04Case) map[string]int {
+// c04Norm: the list as C10 says it is kept: no duplicates, and no word that is the title-cased form of another listed word
+func c04Norm(words []string) []string {
+	seen := map[string]bool{}
+	for _, w := range words {
+		seen[w] = true
+	}
+	var out []string
+	done := map[string]bool{}
+	for _, w := range words {
+		if done[w] {
+			continue
+		}
+		done[w] = true
+		twin := false
+		for v := range seen {
+			if v != w && strings.Title(v) == w {
+				twin = true
+			}
+		}
+		if !twin {
+			out = append(out, w)
+		}
+	}
+	return out
+}
+
+func c04Spec(c0 c04Case) map[string]int {
+	c := c0
+	c.Words = c04Norm(c0.Words)
 	out := map[string]int{}
 	n := len(c.Words)
 	seps := "-_.:+"
@@ -85,8 +113,12 @@ func c04Spec(c c04Case) map[string]int {
 
 func c04Run(c c04Case, M uint32, maxDraws int) (impl map[string]int, tapes int, draws int, fail string) {
 	seps := "-_.:+"
+	wl, werr := NewWordList(c.Words) // one list for all streams (the kept words are Go-map ordered per construction)
+	if werr != nil {
+		return nil, 0, 0, vSprint("NewWordList: ", werr)
+	}
 	mk := func() *WLRecipe {
-		r := NewWLRecipe(c.Length, &WordList{words: c.Words})
+		r := NewWLRecipe(c.Length, wl)
 		r.Capitalize = c.Cap
 		if c.SepN > 0 {
 			k := uint32(c.SepN)
@@ -142,13 +174,15 @@ func TestVerifReplay(t *testing.T) {
 		{[]string{"ab", "cd"}, 3, CSRandom, 0},
 		{[]string{"ab", "cd", "ef", "gh", "ij"}, 2, CSFirst, 0},
 		{[]string{"ab", "cd"}, 3, CSOne, 3},
+		{[]string{"polish", "Polish", "two"}, 2, CSAll, 0}, // the capitalised twin is not a second way to get "Polish"
+		{[]string{"Polish", "two", "polish", "two"}, 2, CSNone, 0},
 	}
 	if req.Tier == "thorough" {
 		cases = append(cases, c04Case{[]string{"ab", "cd", "ef"}, 3, CSRandom, 0}, c04Case{[]string{"a", "b", "c", "d", "e", "f", "g"}, 2, CSOne, 0})
 	}
 	for _, c := range cases {
 		M := uint32(2)
-		for _, k := range []int{len(c.Words), c.Length, c.SepN, 2} {
+		for _, k := range []int{len(c04Norm(c.Words)), c.Length, c.SepN, 2} {
 			if k > 1 {
 				// lcm
 				a, b := int(M), k
